@@ -4,7 +4,7 @@ spec/KStore.tla gives Render (what is written, with `# default:` markers) and
 Load (how a file becomes user values and picks); MC_Store.tla enumerates every
 configuration of every program, checks the round trip on the model and compares
 with what the real write_config / load_config / write_config produced."""
-from .. import storemain
+from .. import gencheck, ktree, lattice, storemain
 
 WANT = {"R-render", "R-reload", "R-rerender", "P-RtValues", "P-RtLines", "P-RtBytes", "P-RtQuiet"}
 
@@ -18,7 +18,19 @@ def main(run):
         "one user value or pick present; clauses: values equal, assignments equal, bytes equal, no default-mismatch / "
         "multiple-assignment / unknown-symbol diagnostics",
     )
+    # the same fixpoint through the command line: kconfgen main() with --defaults files merged in front of the sdkconfig
+    lat = lattice.prec_lattice(run.tier)
+    items = [p for k, p in enumerate(lat) if k % (40 if run.tier == "quick" else 4) == 0] + ktree.generate(run.seed + 1900, 25 if run.tier == "quick" else 600)
+    n, bad = gencheck.main(run, items)
+    run.cov["traces_validated_against_impl"] += n - bad
+    run.cov["distinct_nontrivial"] += n
+    run.cov["rule"] += (
+        "; kconfgen: per program 4 lists of --defaults files (none, one, two with a contradicting line, another one; bare, 'is not set', "
+        "empty right-hand side and indented lines) x sdkconfig absent / written by the previous run (fixpoint: nothing rewritten, nothing "
+        "reported) / written under other defaults files, both policies; the written configuration is compared with KStore.GenRun"
+    )
     run.assumptions += [
+        "kconfgen is run in-process through its click callback with --output config pointing at the sdkconfig itself",
         "reachable configurations are represented by their user values and picks (any such state is reachable by set operations); histories through loads/merges are explored by C08/C16",
         "string escaping is exercised through the literals of the universe (quotes, backslashes, '#', spaces)",
     ]
